@@ -169,6 +169,9 @@ def drive_random(cs, scn, rec, seed, nsteps, modes, genstep_frac=0.3, reset_frac
             fresh[e] = False
         if rng.random() < 0.05:
             rec.goal(e, None)
+        if extras and rng.random() < 0.01:
+            # documented as leaving the environment alone: asked for in the middle of an episode
+            rec.init_states(e)
         if extras and rng.random() < 0.02:
             if flat_envs:
                 rec.mask(flat_envs[0])
@@ -183,6 +186,73 @@ def drive_random(cs, scn, rec, seed, nsteps, modes, genstep_frac=0.3, reset_frac
         for e, us in first_draws.items():
             rec.emit(dict(ev="freq", env=e, episodes=len(us), distinct_first_draws=len(set(us))))
     return dict(steps=nsteps)
+
+
+def drive_sweep(cs, scn, rec, seed, modes, max_steps=2500, after_goal=120):
+    """goal-seeking driver for LARGE scenarios (input selection only; the monitor judges): every action on a host the
+    implementation says is discovered, in index order, with a lucky draw, sweep after sweep until the terminal flag;
+    goal queries on the states met on the way (held State objects included, after the goal too); then the same
+    actions again after the goal, a reset, and a second shorter episode.  One environment per mode."""
+    rng = random.Random(seed)
+    hosts = [tuple(h) for h in cs["hosts"]]
+    ph = pyref.per_host(cs)
+    n = pyref.n_actions(cs)
+    out = dict(goals=0, steps=0)
+    for i, (fo, fa, f1) in enumerate(modes):
+        e = i + 1
+        rec.create(e, scn, fo, fa, f1)
+        env = rec.envs[e]
+        for episode, budget in enumerate((max_steps, max_steps // 3)):
+            rec.reset(e)
+            held, done, used = [], False, 0
+            while not done and used < budget:
+                progressed = False
+                for hi, h in enumerate(hosts):
+                    if done or used >= budget:
+                        break
+                    if not env.current_state.host_discovered(h):
+                        continue
+                    for j in range(ph):
+                        k = hi * ph + j + 1
+                        a = pyref.flat_action(cs, k)
+                        u = pyref.draw_for(a["prob"], rng.random() < 0.9, rng.randrange(2))
+                        sp = ("int", k - 1) if fa else ("list", encode_param(cs, k))
+                        if rng.random() < 0.1:
+                            rec.genstep(e, None, sp, u)
+                        elif held and rng.random() < 0.08:
+                            # a look-ahead from ANOTHER state right before the real step with the same action
+                            rec.genstep(e, rng.choice(held), sp, u)
+                        ev = rec.step(e, sp, u)
+                        used += 1
+                        if ev.get("ev") != "step":
+                            continue
+                        progressed = progressed or bool(ev["post_rows"])
+                        if ev["post_rows"] and len(held) < 6 and rng.random() < 0.3:
+                            held.append(env.current_state)
+                        if rng.random() < 0.03:
+                            rec.goal(e, None)
+                        if ev["term"]:
+                            done = True
+                            break
+                if not progressed:
+                    break
+            out["steps"] += used
+            rec.goal(e, None)
+            for st in held:
+                rec.goal(e, st)
+            if done:
+                out["goals"] += 1
+                # the same actions again after the goal: nothing may be lost, nothing paid twice
+                for t_ in range(after_goal):
+                    k = rng.randrange(n) + 1
+                    a = pyref.flat_action(cs, k)
+                    sp = ("int", k - 1) if fa else ("list", encode_param(cs, k))
+                    rec.step(e, sp, pyref.draw_for(a["prob"], rng.random() < 0.7, 0))
+                rec.goal(e, None)
+                for st in held[:3]:
+                    rec.genstep(e, st, ("int", rng.randrange(n)) if fa else ("list", encode_param(cs, rng.randrange(n) + 1)),
+                                0.3)
+    return out
 
 
 def encode_param(cs, k, wrap=False):
@@ -259,6 +329,9 @@ def run_job(job):
             from harness import agents_src
             res["agents"] = agents_src.drive_agents(scn, rec, job.get("modes", replay.DEFAULT_MODES), job.get("seed", 0),
                                                     job["agents"], agents=job.get("which", ("bruteforce", "random")))
+        if job.get("sweep"):
+            res["sweep"] = drive_sweep(cs, scn, rec, job.get("seed", 0), job.get("modes", replay.DEFAULT_MODES[:1]),
+                                       max_steps=job["sweep"])
         if job.get("random_steps"):
             ctor, modes_ = None, job.get("modes", replay.DEFAULT_MODES)
             if job["src"][0] == "gym":
